@@ -544,9 +544,10 @@ impl<'a, R: RealNumberInternalTrait> Interpreter<'a, R> {
                     .imported_library
                     .insert(lib_name.clone().extract_data())
                 {
-                    let library = self.get_library(lib_name.clone())?;
+                    // the in-progress mark must go whether or not the library could be loaded
+                    let library = self.get_library(lib_name.clone());
                     self.imported_library.remove(lib_name);
-                    Ok(library
+                    Ok(library?
                         .iter_definitions()
                         .map(|(name, value)| (name.clone(), value.clone()))
                         .collect())
